@@ -548,7 +548,12 @@ fn format_directive<'entry>(
                     Err(_) => '?',
                 }
             } else {
-                'l'
+                // %y is the type -type tests: the link itself, unless the
+                // follow mode resolves it.
+                match file_info.file_type() {
+                    FileType::Symlink => 'l',
+                    file_type => format_non_link_file_type(file_type),
+                }
             }
         } else {
             format_non_link_file_type(file_info.file_type())
